@@ -243,10 +243,10 @@ func runC13_2(c *Ctx) {
 	dwr := p.MethodObj(Root, "Dialer", "dialWithRetry")
 	set := p.MethodObj(Root, "SessionHub", "set")
 	d := one(closure, func(i ssa.Instruction) bool { return IsCallTo(i, dwr) }, "dialWithRetry")
-	okI := one(closure, isChange("statusOk"), "changeStatus(Ok)")
-	hs := one(closure, func(i ssa.Instruction) bool { return IsCallTo(i, set) }, "sessHub.set")
 	startFn := p.Fn(Root, "session", "startReadAndHandle")
-	start := one(closure, func(i ssa.Instruction) bool {
+	okEf := okStoreEffect(p)
+	setEf := effect{"sessHub.set", func(i ssa.Instruction) bool { _, isCall := i.(*ssa.Call); return isCall && IsCallTo(i, set) }}
+	startEf := effect{"read loop start", func(i ssa.Instruction) bool {
 		call, ok := i.(ssa.CallInstruction)
 		if !ok {
 			return false
@@ -259,8 +259,30 @@ func runC13_2(c *Ctx) {
 			}
 		}
 		return false
-	}, "start of the read loop")
-	c.Check(Dominates(d, okI) && Dominates(okI, start) && Dominates(start, hs), "redial tail: Ok -> read loop -> index", p.Pos(closure.Pos()), "dialWithRetry -> changeStatus(Ok) -> AnywayGo(startReadAndHandle) -> sessHub.set", "after a successful redial the session is not set Ok, given a read loop and re-indexed in that order: later calls fail or replies are never read")
+	}}
+	first := func(fn *ssa.Function, ef effect, what string) ssa.Instruction {
+		perf := p.performs(fn, ef, 0)
+		if len(perf) == 0 {
+			anchorFail("redial: %s not found", what)
+		}
+		return perf[0]
+	}
+	// the three effects in order: in the closure itself, or inside the one helper that performs all of them
+	var ordered func(fn *ssa.Function, depth int) (bool, ssa.Instruction)
+	ordered = func(fn *ssa.Function, depth int) (bool, ssa.Instruction) {
+		okI := first(fn, okEf, "changeStatus(Ok)")
+		hs := first(fn, setEf, "sessHub.set")
+		start := first(fn, startEf, "start of the read loop")
+		if okI == start && start == hs && depth < 2 {
+			if call, isCall := okI.(*ssa.Call); isCall && call.Call.StaticCallee() != nil {
+				ok, _ := ordered(call.Call.StaticCallee(), depth+1)
+				return ok, okI
+			}
+		}
+		return Dominates(okI, start) && Dominates(start, hs), okI
+	}
+	tailOK, okI := ordered(closure, 0)
+	c.Check(Dominates(d, okI) && tailOK, "redial tail: Ok -> read loop -> index", p.Pos(closure.Pos()), "dialWithRetry -> changeStatus(Ok) -> AnywayGo(startReadAndHandle) -> sessHub.set", "after a successful redial the session is not set Ok, given a read loop and re-indexed in that order: later calls fail or replies are never read")
 	// the old connection is closed on the success path
 	netClose := p.MethodObj("net", "Conn", "Close")
 	closedOld := false
@@ -353,7 +375,7 @@ func runC13_4(c *Ctx) {
 			if o := CalleeObj(call); o != nil && o.Name() == "Lock" && len(call.Call.Args) > 0 && isFieldAddr(call.Call.Args[0], sessN, lockIdx) {
 				lockCall = i
 			}
-			if CalleeObj(call) == try {
+			if CalleeObj(call) == try || isCasFn(p, call.Call.StaticCallee(), try) {
 				cass = append(cass, call)
 			}
 			if !call.Call.IsInvoke() && isFieldLoad(call.Call.Value, sessN, rfIdx) {
@@ -381,7 +403,7 @@ func runC13_4(c *Ctx) {
 		isCasResult := func(v ssa.Value) bool {
 			for _, o := range valueOrigins(v) {
 				call, isC := o.(*ssa.Call)
-				if !isC || CalleeObj(call) != try {
+				if !isC || (CalleeObj(call) != try && !isCasFn(p, call.Call.StaticCallee(), try)) {
 					return false
 				}
 			}
@@ -407,6 +429,29 @@ func runC13_4(c *Ctx) {
 	}
 	c.fact("dominance")
 	c.Check(ok, "redialForClient: nil test -> lock -> identity test -> CAS -> dial", p.Pos(fn.Pos()), "in dominance order; dial on the CAS success edge", "redialForClient does not test, lock, compare the connection and CAS before dialing in that order: two triggers (a failing writer and the reader) can both redial, or a stale trigger closes a fresh connection")
+}
+
+// isCasFn: h is a helper of the root package whose every result is the result of a tryChangeStatus call.
+func isCasFn(p *Prog, h *ssa.Function, try *types.Func) bool {
+	if h == nil || len(h.Blocks) == 0 || h.Signature.Results().Len() != 1 {
+		return false
+	}
+	n := 0
+	ok := true
+	Instrs(h, func(i ssa.Instruction) {
+		ret, isRet := i.(*ssa.Return)
+		if !isRet {
+			return
+		}
+		for _, o := range valueOrigins(ReturnVals(ret)[0]) {
+			call, isC := o.(*ssa.Call)
+			if !isC || CalleeObj(call) != try {
+				ok = false
+			}
+			n++
+		}
+	})
+	return ok && n > 0
 }
 
 func runC13_6(c *Ctx) {
@@ -659,44 +704,69 @@ func runC13_9(c *Ctx) {
 		when  bool // value of that parameter on the guarding edge
 	}
 	var cass []casInfo
-	for _, call := range CallsTo(fn, try) {
-		cc := call.(*ssa.Call)
-		args := CallArgs(cc)
-		to, _ := ConstIntOf(args[0])
-		if st.name[to] != "statusRedialing" {
-			continue
+	type host struct {
+		fn  *ssa.Function
+		via *ssa.Call // the call in redialForClient that enters the helper (nil: redialForClient itself)
+	}
+	hosts := []host{{fn, nil}}
+	for _, call := range AllCalls(fn) {
+		if cc, isCall := call.(*ssa.Call); isCall && isCasFn(p, cc.Call.StaticCallee(), try) {
+			hosts = append(hosts, host{cc.Call.StaticCallee(), cc})
 		}
-		vals, okv := VariadicInts(args[1])
-		if !okv {
-			c.Undec("redialForClient CAS sources", p.InstrPos(cc), "the sources of the CAS to Redialing are not a constant list")
-			return
-		}
-		ci := casInfo{call: cc, param: -1}
-		for _, v := range vals {
-			ci.mask |= 1 << st.bits[v]
-		}
-		for k, prm := range fn.Params {
-			if b, isB := prm.Type().Underlying().(*types.Basic); !isB || b.Kind() != types.Bool {
+	}
+	for _, h := range hosts {
+		for _, call := range CallsTo(h.fn, try) {
+			cc := call.(*ssa.Call)
+			args := CallArgs(cc)
+			to, _ := ConstIntOf(args[0])
+			if st.name[to] != "statusRedialing" {
 				continue
 			}
-			for _, blk := range fn.Blocks {
-				ifi, isIf := blk.Instrs[len(blk.Instrs)-1].(*ssa.If)
-				if !isIf {
+			vals, okv := VariadicInts(args[1])
+			if !okv {
+				c.Undec("redialForClient CAS sources", p.InstrPos(cc), "the sources of the CAS to Redialing are not a constant list")
+				return
+			}
+			ci := casInfo{call: cc, param: -1}
+			for _, v := range vals {
+				ci.mask |= 1 << st.bits[v]
+			}
+			for k, prm := range h.fn.Params {
+				if b, isB := prm.Type().Underlying().(*types.Basic); !isB || b.Kind() != types.Bool {
 					continue
 				}
-				cv, neg := stripNot(ifi.Cond)
-				if cv != ssa.Value(prm) {
-					continue
+				// the flag as redialForClient's callers see it
+				outer := k
+				if h.via != nil {
+					outer = -1
+					for j, fp := range fn.Params {
+						if k < len(h.via.Call.Args) && h.via.Call.Args[k] == ssa.Value(fp) {
+							outer = j
+						}
+					}
+					if outer < 0 {
+						continue
+					}
 				}
-				if BlockDominatesInstr(blk.Succs[0], cc) {
-					ci.param, ci.when = k, !neg
-				}
-				if BlockDominatesInstr(blk.Succs[1], cc) {
-					ci.param, ci.when = k, neg
+				for _, blk := range h.fn.Blocks {
+					ifi, isIf := blk.Instrs[len(blk.Instrs)-1].(*ssa.If)
+					if !isIf {
+						continue
+					}
+					cv, neg := stripNot(ifi.Cond)
+					if cv != ssa.Value(prm) {
+						continue
+					}
+					if BlockDominatesInstr(blk.Succs[0], cc) {
+						ci.param, ci.when = outer, !neg
+					}
+					if BlockDominatesInstr(blk.Succs[1], cc) {
+						ci.param, ci.when = outer, neg
+					}
 				}
 			}
+			cass = append(cass, ci)
 		}
-		cass = append(cass, ci)
 	}
 	if len(cass) == 0 {
 		c.Undec("redialForClient CAS sources", p.Pos(fn.Pos()), "no CAS to Redialing found in redialForClient")
